@@ -275,7 +275,9 @@ func (b *bb) pair(args []string, count bool, setup bool) (jdoc, srv.Value) {
 	if jok {
 		if why := agree(cmd, args, jd, rv, b.st); why != "" {
 			sig := "modes-disagree-" + cmd
-			if b.st.NonFinite && (hasNonFiniteToken(rv.String()) || strings.Contains(jd.Raw, "null")) {
+			if strings.HasPrefix(why, "json-path-field: ") {
+				sig = "modes-disagree-scan-json-path-field"
+			} else if b.st.NonFinite && (hasNonFiniteToken(rv.String()) || strings.Contains(jd.Raw, "null")) {
 				sig = "modes-disagree-nonfinite-coordinate"
 			}
 			b.fail(sig, "JSON and RESP replies convey different results: "+why, args, trunc(jd.Raw, 500), trunc(rv.String(), 500))
@@ -469,6 +471,7 @@ func runBlackBox(r *hx.Result, cfg hx.Config, rng *rand.Rand, drv *model.Driver)
 	b.wsSizes(drv)
 	b.pipelines()
 	b.pubsubPayloads()
+	b.keyspaceModes()
 	for _, st := range states {
 		b.st = st
 		b.reset()
